@@ -23,6 +23,8 @@ func (x *mexpr) String() string {
 		return "ε"
 	case "char":
 		return "'" + x.S + "'"
+	case "name":
+		return x.S
 	case "range":
 		return "[" + x.S + "]"
 	case "dot":
@@ -109,6 +111,8 @@ func (x *mexpr) build(m *model) *Obj {
 		return m.push(ks[0])
 	case "char":
 		return m.char(x.S)
+	case "name":
+		return m.name(x.S)
 	case "range":
 		r := []rune(x.S)
 		return m.rng(string(r[0]), string(r[1]))
@@ -224,7 +228,7 @@ func genSpecs(tag string, xs []*mexpr) []modelSpec {
 // thoroughSpecs: the exhaustive two-level compositions plus seeded random
 // expressions of depth ≤ 3.
 func thoroughSpecs(seed int64, n int) []modelSpec {
-	out := genSpecs("two-level", twoLevel())
+	var out []modelSpec
 	rng := rand.New(rand.NewSource(seed))
 	var xs []*mexpr
 	seen := map[string]bool{}
